@@ -527,3 +527,9 @@ func boolInt(b bool) int {
 }
 
 func bigU(v uint64) *big.Int { return new(big.Int).SetUint64(v) }
+
+// BuildMessage / Pool expose the reference message enumeration to other harnesses (C03 re-encodes decoded messages).
+func BuildMessage(c *enum.Ctx, seed int, pl []*cell.Cell) (te.Message, bool) {
+	return buildMessage(c, seed, pl)
+}
+func Pool(seed int) []*cell.Cell { return pool(seed) }
